@@ -27,6 +27,7 @@ import . "github.com/pbenner/autodiff/logarithmetic"
 
 import . "github.com/pbenner/autodiff"
 import . "github.com/pbenner/threadpool"
+import   "github.com/pbenner/autodiff/verifhook"
 
 /* -------------------------------------------------------------------------- */
 
@@ -89,6 +90,8 @@ func (obj *MixtureStdDataSet) EvaluateLogPdf(edist []ScalarPdf, pool ThreadPool)
   g := pool.NewJobGroup()
   // evaluate emission distributions
   if err := pool.AddRangeJob(0, n, g, func(i int, pool ThreadPool, erf func() error) error {
+    verifhook.Yield("scalarEstimator.mixture_data.job")
+    verifhook.Event("scalarEstimator.mixture_data", i, pool.GetThreadId())
     if erf() != nil {
       return nil
     }
@@ -109,6 +112,7 @@ func (obj *MixtureStdDataSet) EvaluateLogPdf(edist []ScalarPdf, pool ThreadPool)
   }); err != nil {
     return fmt.Errorf("evaluating emission probabilities failed: %v", err)
   }
+  verifhook.Yield("scalarEstimator.mixture_data.queued")
   if err := pool.Wait(g); err != nil {
     return fmt.Errorf("evaluating emission probabilities failed: %v", err)
   }
@@ -182,6 +186,8 @@ func (obj *MixtureSummarizedDataSet) EvaluateLogPdf(edist []ScalarPdf, pool Thre
   g := pool.NewJobGroup()
   // evaluate emission distributions
   if err := pool.AddRangeJob(0, n, g, func(i int, pool ThreadPool, erf func() error) error {
+    verifhook.Yield("scalarEstimator.mixture_data.job")
+    verifhook.Event("scalarEstimator.mixture_data", i, pool.GetThreadId())
     if erf() != nil {
       return nil
     }
@@ -202,6 +208,7 @@ func (obj *MixtureSummarizedDataSet) EvaluateLogPdf(edist []ScalarPdf, pool Thre
   }); err != nil {
     return fmt.Errorf("evaluating emission probabilities failed: %v", err)
   }
+  verifhook.Yield("scalarEstimator.mixture_data.queued")
   if err := pool.Wait(g); err != nil {
     return fmt.Errorf("evaluating emission probabilities failed: %v", err)
   }
